@@ -29,7 +29,8 @@ UNITS = [
         r.root == state.root && (r.data is Ref || r.data is Nothing) && denote(r.data) == sq_val(*self, cur_of(state), state.root)
     }
 """,
-         ensures=[("rel", "self.process_rel(step, r)")]),
+         ensures=[("rel", "self.process_rel(step, r)")],
+         body_prefix="proof { lemma_cur_nodes(step); }"),
     Unit(name="SingularQuerySegment::process", file=F, impl="impl Query for SingularQuerySegment", fn="process", order=43,
          trait_method=True, serves=["C04", "C05", "C08"],
          impl_extra="""
